@@ -61,7 +61,10 @@ def realise(d, rng):
         m = n + (rng.choice([1, -1]) if d["wLenMismatch"] else 0)
         w = [float(rng.randint(1, 3)) for _ in range(m)]
         if d["wNonPositive"]:
-            w[rng.randrange(m)] = rng.choice([0.0, -1.0])
+            if rng.random() < 0.35:
+                w = [-v for v in w]  # all weights strictly negative (a normalisation must not turn them positive)
+            else:
+                w[rng.randrange(m)] = rng.choice([0.0, -1.0])
         out["w"] = w
     out["level"] = rng.choice([0.25, 0.5, 0.75, 0.1]) if d["levelValid"] else rng.choice([0, 1, -0.5, 1.5, 2])
     out["functional"] = d["f"] if d["f"] != "unknown" else rng.choice(["XXX", "Mean", "quantil", ""])
